@@ -323,7 +323,7 @@ type api struct {
 	numBytes    func() int
 	countImmune func() int
 	keys        func() [][]byte
-	forEach     func() [][]byte
+	forEach     func(k *core.Keeper)
 }
 
 func newImmunityCache(nc, mi, mb, ev uint32) (*api, error) {
@@ -349,10 +349,8 @@ func newImmunityCache(nc, mi, mb, ev uint32) (*api, error) {
 			return a, b, true
 		},
 		clear: c.Clear, count: c.Count, length: c.Len, numBytes: c.NumBytes, countImmune: c.CountImmune, keys: c.Keys,
-		forEach: func() [][]byte {
-			var out [][]byte
-			c.ForEachItem(func(key []byte, _ interface{}) { out = append(out, append([]byte{}, key...)) })
-			return out
+		forEach: func(k *core.Keeper) {
+			c.ForEachItem(func(key []byte, _ interface{}) { k.See(key) })
 		},
 	}, nil
 }
@@ -391,10 +389,8 @@ func newCrossTxCache(nc, mi, mb, ev uint32) (*api, error) {
 			return 0, 0, false
 		},
 		clear: c.Clear, count: c.Count, length: c.Len, numBytes: c.NumBytes, countImmune: c.CountImmune, keys: c.Keys,
-		forEach: func() [][]byte {
-			var out [][]byte
-			c.ForEachTransaction(func(txHash []byte, _ *txcache.WrappedTransaction) { out = append(out, append([]byte{}, txHash...)) })
-			return out
+		forEach: func(k *core.Keeper) {
+			c.ForEachTransaction(func(txHash []byte, _ *txcache.WrappedTransaction) { k.See(txHash) })
 		},
 	}, nil
 }
@@ -682,8 +678,10 @@ func (comp) Run(h *core.History, scratch string) *core.Result {
 
 		// ---- observers after every op
 		count, length, nb, ci := c.count(), c.length(), c.numBytes(), c.countImmune()
-		keys := c.keys()
-		fe := c.forEach()
+		keys := res.OwnKeys("C13", i, "Keys()", c.keys())
+		var keeper core.Keeper
+		c.forEach(&keeper)
+		fe := keeper.Done(res, "C13", i, "ForEachItem", true)
 		gets := make([]string, len(universe))
 		hass := make([]string, len(universe))
 		after := map[string]resident{}
